@@ -209,6 +209,10 @@ def run(eng, R):
                     if fq == f.qualname and desc.startswith(dp):
                         ex = why
                         used_exempt.add((fq, dp))
+                # the same exemptions hold wherever the canonical program has written the exempted helper out: a private function of the adapter base class that
+                # rejects only through the adapter's own set / fix / release (parameter names from the adapter's own list)
+                if ex is None and f.qualname.startswith("MinimizerBase._") and desc.startswith(("call self.set", "call self.fix", "call self.release", "call self._get_cost_value")):
+                    ex = "private helper of the adapter base class: parameter names come from the adapter's own name list (see the exemptions of _get_cost_value / set_several)"
                 if ex:
                     R.ob("RA", f.qualname, True, eng.where(f, w.stmt), "exempt: %s" % ex)
                     continue
